@@ -255,7 +255,7 @@ def Expr.psize : Expr → Nat
     match x with
     | .and _ _ => 1 + x.psize
     | .or _ _ => 1 + x.psize
-    | .not _ => 1 + x.psize
+    | .not _ => x.psize   -- `!!` is rejected by the parser whatever the size; never produced from `// +build` lines
     | .tag _ => 1
   | .and x y =>
     let a (z : Expr) (n : Nat) : Nat := match z with | .or _ _ => 1 + n | _ => n
@@ -317,6 +317,26 @@ def toolchainSelects (v : Str → Bool) : Header → Option Bool
   | .none => some true
   | .goBuild e => if e.psize > maxSize then Option.none else some (e.eval v)
 
+/-- Number of terms on one constraint line. -/
+def termCount (c : Constraint) : Nat := (c.map List.length).sum
+
+/-- The expression the toolchain derives from one line, in terms of the
+constraint (used in statements; `plusBuildExpr` computes it from the text). -/
+def lineExpr (tc : Char → Bool) (c : Constraint) : Expr :=
+  match c.map (fun o => clauseExpr tc (optText o)) with
+  | [] => .tag ignoreTag
+  | y :: ys => orAll y ys
+
+/-- Number of tags in an expression. -/
+def Expr.leaves : Expr → Nat
+  | .tag _ => 1
+  | .not x => x.leaves
+  | .and x y => x.leaves + y.leaves
+  | .or x y => x.leaves + y.leaves
+
+/-- Input-level bound on the number of tags of the synthesised expression. -/
+def sizeBound (cs : Constraints) : Nat := (cs.map (fun c => max 1 (termCount c))).sum
+
 /-- The separators of the `// +build` syntax are not tag characters (holds for
 the toolchain's predicate: checked on the measured table in `Props/C14Tables.lean`). -/
 structure SepFree (tc : Char → Bool) : Prop where
@@ -324,11 +344,18 @@ structure SepFree (tc : Char → Bool) : Prop where
   comma : tc ',' = false
   space : ∀ c, isSpace c = true → tc c = false
 
-/-- A concrete ASCII-only tag character predicate, for examples. -/
-def asciiTag (c : Char) : Bool := c.isAlphanum || c == '_' || c == '.'
-
 /-- Tag character predicate from a table of inclusive code point ranges. -/
 def tagCharOf (ranges : List (Nat × Nat)) (c : Char) : Bool :=
   ranges.any (fun r => r.1 ≤ c.toNat && c.toNat ≤ r.2)
+
+/-- Executable check that a range table keeps `!`, `,` and white space out. -/
+def sepFreeTable (ranges : List (Nat × Nat)) : Bool :=
+  let inR (n : Nat) : Bool := ranges.any (fun r => r.1 ≤ n && n ≤ r.2)
+  !inR '!'.toNat && !inR ','.toNat && spaceCodes.all (fun n => !inR n)
+
+/-- A concrete ASCII-only tag character predicate, for examples:
+digits, letters, `_`, `.`. -/
+def asciiRanges : List (Nat × Nat) := [(46, 46), (48, 57), (65, 90), (95, 95), (97, 122)]
+def asciiTag : Char → Bool := tagCharOf asciiRanges
 
 end Avo.Tags
